@@ -12,10 +12,20 @@ Identifier conversion
 * `convert_style`, `convert_spec`  the result has the shape of the style (hypothesis: no leading underscore — needed for
   camelCase only; every identifier of the IDL grammar starts with a letter)
 
-C++
-* `cpp_typeSpec_homomorphic`   `_type_specifier` is built from the written types of the arguments by three combinators
-* `cppCore_eq_ref`, `cppSpec_eq_ref`  it writes exactly the reference mapping in field / parameter / result position
-* `cpp_optional_interface`, `cpp_optional_function`, `cpp_not_null_wraps`, `cpp_param_constref_iff`
+Type mapping, per target (`…_typeSpec_homomorphic`: the written type of `g<a₁..aₙ>?` is built from the written types of
+the `aᵢ` by the target's combinators; `…_eq_ref`: it is the reference mapping `printT (ref… t)` at every nesting depth)
+* C++      `cpp_typeSpec_homomorphic`, `cppCore_eq_ref`, `cppSpec_eq_ref` (field / parameter / result position),
+           `cpp_optional_interface`, `cpp_optional_function`, `cpp_not_null_wraps`, `cpp_param_constref_iff`
+* Java     `java_typeSpec_homomorphic`, `java_optional_is_boxed`, `java_async_boxed`, `javaDataType_eq_ref_partial`
+           (no annotation configured; see the theorem's comment for the full statement)
+* C++/CLI  `cli_typeSpec_homomorphic`, `cli_nullable_iff`, `cliTypename_eq_ref`
+* ObjC     `objc_typeSpec_homomorphic`, `objc_interface_parameter`, `objcTypeDecl_eq_ref`
+The hypotheses `builtinsAll …OK` are the generated table obligations (checked by `decide` on the live tables every run).
+
+Declaration skeletons (`api_fidelity`: for every declaration the model's skeleton satisfies the fidelity specification —
+members in IDL order, converted names, reference types, modifier table)
+* `cpp_api_fidelity`, `cli_api_fidelity`, `objc_api_fidelity`, `java_api_fidelity_partial`,
+  `cpp_api_members_in_order`, `cpp_api_methods_in_order`
 -/
 namespace Pydjinni.Gen
 
@@ -987,6 +997,343 @@ theorem cpp_api_members_in_order (c : CppCfg) (u : UInfo) (fields : List FieldD)
 theorem cpp_api_methods_in_order (c : CppCfg) (u : UInfo) (ms : List MethodD) :
     (cppSkel c (.interface u ms)).methods.map (·.name) = ms.map (fun m => convert c.methodStyle m.name) := by
   simp [cppSkel, DeclS.empty, cppMethod, List.map_map, Function.comp_def]
+
+
+/-! ## C++/CLI and Java declaration skeletons -/
+
+/-! ### C++/CLI skeleton -/
+
+abbrev cliTypesOk (d : Decl) : Prop := d.typesAll (fun t => t.builtinsAll Builtin.cliOK) = true
+
+theorem cliDeclName_eq (c : CliCfg) (u : UInfo) : cliDeclName c u = convert c.tyStyle (baseName "cppcli" u) := by
+  simp only [cliDeclName, baseName]; split <;> rfl
+
+theorem cliAttr_eq (c : CliCfg) (o : Bool) : cliAttr c o = cliWantAttr c o := rfl
+
+theorem cli_members_ok (c : CliCfg) (label : String) (dc : Bool) (fs : List FieldD)
+    (h : fieldsAll (fun t => t.builtinsAll Builtin.cliOK) fs = true) :
+    membersOk label dc (fs.map (cliWantParam c)) (fs.map (cliParam c)) = [] ∧
+    membersOk label dc (fs.map (cliWantPlainParam c)) (fs.map (cliPlainParam c)) = [] ∧
+    membersOk label dc (fs.map (cliWantProp c)) (fs.map (cliProperty c)) = [] := by
+  refine ⟨?_, ?_, ?_⟩ <;> apply membersOk_self
+  · simp [List.map_map, Function.comp_def, cliParam, cliWantParam]
+  · simp only [List.map_map]
+    apply List.map_congr_left
+    intro f hf
+    simp [cliParam, cliWantParam, printT, cliAttr_eq, cliTypename_eq_ref c f.ty (fieldsAll_mem h f hf)]
+  · simp [List.map_map, Function.comp_def, cliPlainParam, cliWantPlainParam]
+  · simp only [List.map_map]
+    apply List.map_congr_left
+    intro f hf
+    simp [cliPlainParam, cliWantPlainParam, cliTypename_eq_ref c f.ty (fieldsAll_mem h f hf)]
+  · simp [List.map_map, Function.comp_def, cliProperty, cliWantProp]
+  · simp only [List.map_map]
+    apply List.map_congr_left
+    intro f hf
+    simp [cliProperty, cliWantProp, cliTypename_eq_ref c f.ty (fieldsAll_mem h f hf)]
+
+theorem cliTypenameO_eq_ref (c : CliCfg) (t : Option RType) (async : Bool)
+    (h : ∀ r, t = some r → r.builtinsAll Builtin.cliOK = true) : cliTypenameO c t async = printT (refCliRet c t async) := by
+  cases t with
+  | none => cases async <;> simp [cliTypenameO, refCliRet, printT]
+  | some r =>
+    have lit : ">" ++ "^" = ">^" := by decide
+    cases async <;> simp [cliTypenameO, refCliRet, printT, printT_wrap1, cliTypename_eq_ref c r (h r rfl), String.append_assoc, lit]
+
+/-- **api_fidelity (C++/CLI)** -/
+theorem cli_api_fidelity (c : Cfg) (d : Decl) (h : cliTypesOk d) : fidelity .cppcli c d (apiSkel .cppcli c d) = [] := by
+  simp only [fidelity, apiSkel, want]
+  cases d with
+  | enum u items =>
+    apply declOk_self <;> simp [wantCli, cliSkel, cliDeclName_eq, DeclS.empty, Decl.info, membersOk_nil, methodsOk_nil, codesOk_nil, itemsOk_self]
+  | flags u items =>
+    apply declOk_self <;> simp [wantCli, cliSkel, cliDeclName_eq, DeclS.empty, Decl.info, membersOk_nil, methodsOk_nil, codesOk_nil, itemsOk_self]
+  | record u fields e o =>
+    simp only [cliTypesOk, Decl.typesAll] at h
+    obtain ⟨hp, _, hf⟩ := cli_members_ok c.cli "field" false fields h
+    obtain ⟨hc, _, _⟩ := cli_members_ok c.cli "ctor" false fields h
+    apply declOk_self <;> simp [wantCli, cliSkel, cliDeclName_eq, DeclS.empty, Decl.info, methodsOk_nil, codesOk_nil, itemsOk_self, hf, hc]
+  | interface u ms =>
+    simp only [cliTypesOk, Decl.typesAll, List.all_eq_true, Bool.and_eq_true] at h
+    have hm : methodsOk (ms.map (cliWantMethod c.cli)) (ms.map (cliMethod c.cli)) = [] := by
+      apply methodsOk_self
+      · simp
+      · simp [List.map_map, Function.comp_def, cliMethod, cliWantMethod]
+      · intro x hx
+        obtain ⟨m, hmem, rfl⟩ := mem_zip_map _ _ ms x hx
+        have hmm := h m hmem
+        obtain ⟨hp, _, _⟩ := cli_members_ok c.cli "param" false m.params hmm.1
+        have hret := cliTypenameO_eq_ref c.cli m.ret m.isAsync (by intro r hr; simpa [hr] using hmm.2)
+        simp only [methodOk, cliMethod, cliWantMethod, hret]
+        simp [hp]
+    apply declOk_self <;> simp [wantCli, cliSkel, cliDeclName_eq, DeclS.empty, Decl.info, membersOk_nil, codesOk_nil, itemsOk_self, hm]
+  | function u a ps r t =>
+    simp only [cliTypesOk, Decl.typesAll, Bool.and_eq_true] at h
+    cases a with
+    | true => apply declOk_self <;> simp [wantCli, cliSkel, DeclS.empty, Decl.info, membersOk_nil, methodsOk_nil, codesOk_nil, itemsOk_self]
+    | false =>
+      obtain ⟨hp, _, _⟩ := cli_members_ok c.cli "param" false ps h.1
+      have hret := cliTypenameO_eq_ref c.cli r false (by intro r' hr; simpa [hr] using h.2)
+      have hm : methodsOk [({ pre := [], ret := refCliRet c.cli r false, name := convert c.cli.tyStyle (baseName "cppcli" u), params := ps.map (cliWantParam c.cli), post := [] } : WantMethod)]
+          [({ pre := [], ret := cliTypenameO c.cli r false, name := convert c.cli.tyStyle (baseName "cppcli" u), params := ps.map (cliParam c.cli), post := [] } : MethodS)] = [] := by
+        simp [methodsOk, methodOk, hret, hp]
+      apply declOk_self <;> simp [wantCli, cliSkel, cliDeclName_eq, DeclS.empty, Decl.info, membersOk_nil, codesOk_nil, itemsOk_self, hm]
+  | error u codes =>
+    simp only [cliTypesOk, Decl.typesAll, List.all_eq_true] at h
+    have hk : codesOk false (codes.map (cliWantCode c.cli)) (codes.map (cliCode c.cli)) = [] := by
+      apply codesOk_self
+      · simp
+      · simp [List.map_map, Function.comp_def, cliCode, cliWantCode]
+      · intro x hx
+        obtain ⟨k, hmem, rfl⟩ := mem_zip_map _ _ codes x hx
+        have hk := h k hmem
+        obtain ⟨_, _, hf⟩ := cli_members_ok c.cli "code-field" false k.params hk
+        obtain ⟨_, hc, _⟩ := cli_members_ok c.cli "code-ctor" false k.params hk
+        simp [cliCode, cliWantCode, hf, hc]
+    apply declOk_self <;> simp [wantCli, cliSkel, cliDeclName_eq, DeclS.empty, Decl.info, membersOk_nil, methodsOk_nil, itemsOk_self, hk]
+
+
+/-! ### Java skeleton -/
+
+abbrev javaTypesOk (d : Decl) : Prop := d.typesAll (fun t => t.builtinsAll Builtin.javaOK && t.genericsOk) = true
+
+structure JavaDom (c : JavaCfg) : Prop where
+  pkg : javaPackageOk c
+  noAnn : annOf c.nullable = none ∧ annOf c.nonnull = none
+
+theorem java_members_ok (c : JavaCfg) (hc : JavaDom c) (label : String) (dc : Bool) (fs : List FieldD)
+    (h : fieldsAll (fun t => t.builtinsAll Builtin.javaOK && t.genericsOk) fs = true) :
+    membersOk label dc (fs.map (javaWantMember c)) (fs.map (javaMember c)) = [] := by
+  apply membersOk_self
+  · simp [List.map_map, Function.comp_def, javaMember, javaWantMember]
+  · simp only [List.map_map]
+    apply List.map_congr_left
+    intro f hf
+    have := fieldsAll_mem h f hf
+    simp only [Bool.and_eq_true] at this
+    simp [javaMember, javaWantMember, javaDataType_eq_ref_partial c hc.pkg hc.noAnn f.ty false this.1 this.2]
+
+theorem javaReturnType_eq_ref (c : JavaCfg) (hc : JavaDom c) (t : Option RType) (async : Bool)
+    (h : ∀ r, t = some r → r.builtinsAll Builtin.javaOK = true ∧ r.genericsOk = true) :
+    javaReturnType c t async = printT (refJavaRet c t async) := by
+  have hq : printT (.qname ["java", "util", "concurrent"] none "CompletableFuture") = "java.util.concurrent.CompletableFuture" := by decide
+  have hv : printT (.qname ["java", "lang"] none "Void") = "Void" := by decide
+  cases t with
+  | none =>
+    cases async <;> simp [javaReturnType, refJavaRet, printT_app, applyArgs, printTs, joinS, applyAnnotation_none _ _ hc.noAnn.2, hc.noAnn.2, hq, hv]
+    · simp [printT]
+  | some r =>
+    have hr := h r rfl
+    cases async <;>
+      simp [javaReturnType, refJavaRet, printT_app, applyArgs, printTs, joinS, applyAnnotation_none _ _ hc.noAnn.2, hc.noAnn.2, hq,
+        javaDataType_eq_ref_partial c hc.pkg hc.noAnn r _ hr.1 hr.2]
+
+
+theorem javaThrows_eq (c : JavaCfg) (m : MethodD) : javaThrows c m = javaWantThrows c m := by
+  unfold javaThrows javaWantThrows
+  cases m.throwing with
+  | none => rfl
+  | some l =>
+    simp only []
+    split
+    · rfl
+    · apply List.map_congr_left
+      intro d _
+      cases d <;> rfl
+
+theorem javaDeclName_eq (c : JavaCfg) (d : Decl) (hwf : d.wf = true) :
+    javaDeclName c d.info (match d with | .function _ a _ _ _ => a | _ => false) =
+      (if d.info.prim == .function && (match d with | .function _ a _ _ _ => a | _ => false) then title d.info.name
+       else convert c.tyStyle (baseName "java" d.info)) := by
+  cases d <;> simp only [Decl.wf, beq_iff_eq] at hwf <;> simp [javaDeclName, baseName, Decl.info, hwf] <;> split <;> simp_all
+
+/-- **api_fidelity (Java), partial** — under `JavaDom` (no nullable / nonnull annotation configured; the annotated
+    configurations are covered by the correspondence and by `spec` on every generated file each run) -/
+theorem java_api_fidelity_partial (c : Cfg) (hc : JavaDom c.java) (d : Decl) (hwf : d.wf = true) (h : javaTypesOk d) :
+    fidelity .java c d (apiSkel .java c d) = [] := by
+  simp only [fidelity, apiSkel, want]
+  have hname := javaDeclName_eq c.java d hwf
+  cases d with
+  | enum u items =>
+    apply declOk_self <;> simp [wantJava, javaSkel, DeclS.empty, Decl.info, membersOk_nil, methodsOk_nil, codesOk_nil, itemsOk_self] <;> simpa [Decl.info] using hname
+  | flags u items =>
+    apply declOk_self <;> simp [wantJava, javaSkel, DeclS.empty, Decl.info, membersOk_nil, methodsOk_nil, codesOk_nil, itemsOk_self] <;> first | (simpa [Decl.info] using hname) | skip
+  | record u fields e o =>
+    simp only [javaTypesOk, Decl.typesAll] at h
+    have hf := java_members_ok c.java hc "field" false fields h
+    have hct := java_members_ok c.java hc "ctor" false fields h
+    have hg : methodsOk (fields.map (javaWantGetter c.java)) (fields.map (javaGetter c.java)) = [] := by
+      apply methodsOk_self
+      · simp
+      · simp [List.map_map, Function.comp_def, javaGetter, javaWantGetter]
+      · intro x hx
+        obtain ⟨f, hmem, rfl⟩ := mem_zip_map _ _ fields x hx
+        have := fieldsAll_mem h f hmem
+        simp only [Bool.and_eq_true] at this
+        simp [methodOk, javaGetter, javaWantGetter, membersOk_nil, javaDataType_eq_ref_partial c.java hc.pkg hc.noAnn f.ty false this.1 this.2]
+    apply declOk_self <;> simp [wantJava, javaSkel, DeclS.empty, Decl.info, codesOk_nil, itemsOk_self, hf, hct, hg] <;> first | (simpa [Decl.info] using hname) | skip
+  | interface u ms =>
+    simp only [javaTypesOk, Decl.typesAll, List.all_eq_true, Bool.and_eq_true] at h
+    have hm : methodsOk (ms.map (javaWantMethod c.java)) (ms.map (javaMethod c.java)) = [] := by
+      apply methodsOk_self
+      · simp
+      · simp [List.map_map, Function.comp_def, javaMethod, javaWantMethod]
+      · intro x hx
+        obtain ⟨m, hmem, rfl⟩ := mem_zip_map _ _ ms x hx
+        have hmm := h m hmem
+        have hp := java_members_ok c.java hc "param" false m.params (by simpa [fieldsAll, List.all_eq_true] using hmm.1)
+        have hret := javaReturnType_eq_ref c.java hc m.ret m.isAsync (by intro r hr; simpa [hr] using hmm.2)
+        simp only [methodOk, javaMethod, javaWantMethod, hret]
+        simp [hp, javaThrows_eq]
+    apply declOk_self <;> simp [wantJava, javaSkel, DeclS.empty, Decl.info, membersOk_nil, codesOk_nil, itemsOk_self, hm] <;> first | (simpa [Decl.info] using hname) | skip
+  | function u a ps r t =>
+    simp only [javaTypesOk, Decl.typesAll, Bool.and_eq_true] at h
+    have hp := java_members_ok c.java hc "param" false ps (by simpa [fieldsAll, List.all_eq_true] using h.1)
+    have hret := javaReturnType_eq_ref c.java hc r false (by intro r' hr; simpa [hr] using h.2)
+    have hm : methodsOk [({ pre := [], ret := refJavaRet c.java r false, name := "invoke", params := ps.map (javaWantMember c.java), post := [] } : WantMethod)]
+        [({ pre := [], ret := javaReturnType c.java r false, name := "invoke", params := ps.map (javaMember c.java), post := [] } : MethodS)] = [] := by
+      simp [methodsOk, methodOk, hret, hp]
+    apply declOk_self <;> simp [wantJava, javaSkel, DeclS.empty, Decl.info, membersOk_nil, codesOk_nil, itemsOk_self, hm] <;> first | (simpa [Decl.info] using hname) | skip
+  | error u codes =>
+    simp only [javaTypesOk, Decl.typesAll, List.all_eq_true] at h
+    have hk : codesOk false (codes.map (javaWantCode c.java)) (codes.map (javaCode c.java)) = [] := by
+      apply codesOk_self
+      · simp
+      · simp [List.map_map, Function.comp_def, javaCode, javaWantCode]
+      · intro x hx
+        obtain ⟨k, hmem, rfl⟩ := mem_zip_map _ _ codes x hx
+        have hk := h k hmem
+        simp [javaCode, javaWantCode, java_members_ok c.java hc "code-field" false k.params hk, java_members_ok c.java hc "code-ctor" false k.params hk]
+    apply declOk_self <;> simp [wantJava, javaSkel, DeclS.empty, Decl.info, membersOk_nil, methodsOk_nil, itemsOk_self, hk] <;> first | (simpa [Decl.info] using hname) | skip
+
+
+/-! ## Objective-C declaration skeleton -/
+
+/-! ### Objective-C skeleton -/
+
+abbrev objcTypesOk (d : Decl) : Prop := d.typesAll (fun t => t.builtinsAll Builtin.objcOK) = true
+
+theorem objcDeclName_eq (c : ObjcCfg) (u : UInfo) : objcDeclName c u = objcWantName c u := by
+  simp only [objcDeclName, objcWantName, baseName, objcUserTypename]; split <;> rfl
+
+theorem printT_annT (ann : String) (e : TExp) : printT (annT ann e) = withAnn ann (printT e) := by
+  unfold annT withAnn
+  split <;> simp [printT]
+
+theorem objc_member_ty (c : ObjcCfg) (parameter : Bool) (f : FieldD) (h : f.ty.builtinsAll Builtin.objcOK = true) :
+    withAnn (objcAnnotation (some f.ty) false) (objcTypeDecl c f.ty parameter false) = printT (objcWantMember c parameter f).ty := by
+  simp [objcWantMember, printT_annT, refObjcAnnotation_eq f.ty false h, objcTypeDecl_eq_ref c f.ty parameter false h]
+
+theorem objc_members_ok (c : ObjcCfg) (label : String) (dc : Bool) (fs : List FieldD)
+    (h : fieldsAll (fun t => t.builtinsAll Builtin.objcOK) fs = true) :
+    membersOk label dc (fs.map (objcWantMember c false)) (fs.map (objcProperty c)) = [] ∧
+    membersOk label dc (fs.map (objcWantMember c false)) (fs.map (objcFieldArg c)) = [] ∧
+    membersOk label dc (fs.map (objcWantMember c true)) (fs.map (objcParam c)) = [] := by
+  refine ⟨?_, ?_, ?_⟩ <;> apply membersOk_self
+  · simp [List.map_map, Function.comp_def, objcProperty, objcWantMember]
+  · simp only [List.map_map]
+    apply List.map_congr_left
+    intro f hf
+    simpa [objcProperty] using objc_member_ty c false f (fieldsAll_mem h f hf)
+  · simp [List.map_map, Function.comp_def, objcFieldArg, objcWantMember]
+  · simp only [List.map_map]
+    apply List.map_congr_left
+    intro f hf
+    simpa [objcFieldArg] using objc_member_ty c false f (fieldsAll_mem h f hf)
+  · simp [List.map_map, Function.comp_def, objcParam, objcWantMember]
+  · simp only [List.map_map]
+    apply List.map_congr_left
+    intro f hf
+    simpa [objcParam] using objc_member_ty c true f (fieldsAll_mem h f hf)
+
+theorem refObjcAnnotationO_eq (t : Option RType) (m : Bool) (h : ∀ r, t = some r → r.builtinsAll Builtin.objcOK = true) :
+    refObjcAnnotation t m = objcAnnotation t m := by
+  cases t with
+  | none => rfl
+  | some r => exact refObjcAnnotation_eq r m (h r rfl)
+
+theorem objcCompletion_eq (c : ObjcCfg) (m : MethodD) (h : ∀ r, m.ret = some r → r.builtinsAll Builtin.objcOK = true) :
+    objcCompletion c m = printT (objcWantCompletion c m) := by
+  have hb : builtinsAllO Builtin.objcOK m.ret = true := by
+    cases hr : m.ret with
+    | none => rfl
+    | some r => simpa [builtinsAllO] using h r hr
+  unfold objcCompletion objcWantCompletion
+  simp only [objcTypeDeclO_eq_ref c m.ret hb, refObjcAnnotationO_eq m.ret true h]
+  split <;> simp [printT]
+
+
+theorem objcMethod_ok (c : ObjcCfg) (m : MethodD)
+    (hp : fieldsAll (fun t => t.builtinsAll Builtin.objcOK) m.params = true)
+    (hr : ∀ r, m.ret = some r → r.builtinsAll Builtin.objcOK = true) :
+    methodOk (objcWantMethod c m) (objcMethod c m) = [] := by
+  have hb : builtinsAllO Builtin.objcOK m.ret = true := by
+    cases hr' : m.ret with
+    | none => rfl
+    | some r => simpa [builtinsAllO] using hr r hr'
+  obtain ⟨_, _, hps⟩ := objc_members_ok c "param" false m.params hp
+  have hret : (objcMethod c m).ret = printT (objcWantMethod c m).ret := by
+    simp only [objcMethod, objcWantMethod]
+    cases m.isAsync
+    · simp [printT_annT, refObjcAnnotationO_eq m.ret false hr, objcTypeDeclO_eq_ref c m.ret hb]
+    · simp [printT]
+  have hparams : membersOk "param" false (objcWantMethod c m).params (objcMethod c m).params = [] := by
+    simp only [objcMethod, objcWantMethod, objcMethodParams]
+    apply membersOk_self
+    · cases m.isAsync <;> cases m.throwing.isSome <;> simp [List.map_map, Function.comp_def, objcParam, objcWantMember]
+    · have h1 : (m.params.map (objcParam c)).map (·.ty) = (m.params.map (objcWantMember c true)).map (fun w => printT w.ty) := by
+        simp only [List.map_map]
+        apply List.map_congr_left
+        intro f hf
+        simpa [objcParam] using objc_member_ty c true f (fieldsAll_mem hp f hf)
+      cases m.isAsync <;> cases m.throwing.isSome <;> simp [List.map_append, h1, printT, objcCompletion_eq c m hr]
+  simp only [methodOk, hret, hparams]
+  simp [objcMethod, objcWantMethod]
+
+/-- **api_fidelity (Objective-C)** -/
+theorem objc_api_fidelity (c : Cfg) (d : Decl) (hwf : d.wf = true) (h : objcTypesOk d) : fidelity .objc c d (apiSkel .objc c d) = [] := by
+  simp only [fidelity, apiSkel, want]
+  cases d with
+  | enum u items =>
+    apply declOk_self <;> simp [wantObjc, objcSkel, objcDeclName_eq, DeclS.empty, Decl.info, membersOk_nil, methodsOk_nil, codesOk_nil, itemsOk_self]
+  | flags u items =>
+    apply declOk_self <;> simp [wantObjc, objcSkel, objcDeclName_eq, DeclS.empty, Decl.info, membersOk_nil, methodsOk_nil, codesOk_nil, itemsOk_self]
+  | function u a ps r t =>
+    apply declOk_self <;> simp [wantObjc, objcSkel, DeclS.empty, Decl.info, membersOk_nil, methodsOk_nil, codesOk_nil, itemsOk_self]
+  | interface u ms =>
+    simp only [objcTypesOk, Decl.typesAll, List.all_eq_true, Bool.and_eq_true] at h
+    have hm : methodsOk (ms.map (objcWantMethod c.objc)) (ms.map (objcMethod c.objc)) = [] := by
+      apply methodsOk_self
+      · simp
+      · simp [List.map_map, Function.comp_def, objcMethod, objcWantMethod]
+      · intro x hx
+        obtain ⟨m, hmem, rfl⟩ := mem_zip_map _ _ ms x hx
+        have hmm := h m hmem
+        exact objcMethod_ok c.objc m hmm.1 (by intro r hr; simpa [hr] using hmm.2)
+    apply declOk_self <;> simp [wantObjc, objcSkel, objcDeclName_eq, DeclS.empty, Decl.info, membersOk_nil, codesOk_nil, itemsOk_self, hm]
+  | record u fields e o =>
+    simp only [objcTypesOk, Decl.typesAll] at h
+    simp only [Decl.wf, beq_iff_eq] at hwf
+    obtain ⟨hf, _, _⟩ := objc_members_ok c.objc "field" false fields h
+    obtain ⟨_, hctor, _⟩ := objc_members_ok c.objc "ctor" false fields h
+    obtain ⟨_, hpar, _⟩ := objc_members_ok c.objc "param" false fields h
+    have hbase : baseName "objc" u = (if u.targets.contains "objc" then u.name ++ "_base" else u.name) := by
+      simp [baseName, hwf]
+    have hcmp : membersOk "param" false [({ ty := .atom ("nonnull " ++ objcWantName c.objc u ++ " *"), name := "other" } : Want)]
+        [({ ty := "nonnull " ++ objcWantName c.objc u ++ " *", name := "other" } : MemberS)] = [] := by
+      apply membersOk_self <;> simp [printT]
+    apply declOk_self <;> simp [wantObjc, objcSkel, objcDeclName_eq, DeclS.empty, Decl.info, codesOk_nil, itemsOk_self, hf, hctor]
+    cases fields with
+    | nil => cases o <;> simp [methodsOk, methodOk, membersOk_nil, hcmp, printT]
+    | cons f fs =>
+      simp only [List.map_cons] at hpar
+      cases o <;> simp [methodsOk, methodOk, hpar, hbase, hcmp, printT]
+  | error u codes =>
+    have hfields : membersOk "field" false
+        (codes.flatMap (fun k => k.params.map (fun p => ({ ty := .atom "NSErrorUserInfoKey", name := objcUserTypename c.objc u ++ convert c.objc.tyStyle k.name ++ convert c.objc.tyStyle p.name } : Want))))
+        (codes.flatMap (fun k => k.params.map (fun p => ({ ty := "NSErrorUserInfoKey", name := objcUserTypename c.objc u ++ convert c.objc.tyStyle k.name ++ convert c.objc.tyStyle p.name } : MemberS)))) = [] := by
+      apply membersOk_self <;> simp [List.map_flatMap, List.map_map, Function.comp_def, printT]
+    apply declOk_self <;> simp [wantObjc, objcSkel, objcDeclName_eq, DeclS.empty, Decl.info, membersOk_nil, methodsOk_nil, codesOk_nil, itemsOk_self, hfields]
 
 
 end Pydjinni.Gen
